@@ -19,6 +19,9 @@ type LightFamily struct {
 	Prop    string // C07 | C08 | C11: which oracle clauses are reported
 	RemMode string // "" = every subset of the additions; "all"; "none"
 	Collect string // when set, violations of this property are collected instead of Prop's
+	// Base > 0: the client starts from bare roots of an accumulator that already holds Base
+	// leaves (opaque, undeletable trees with synthetic root hashes): rows up to 63.
+	Base uint64
 }
 
 type lightFrame struct {
@@ -68,7 +71,7 @@ func (c *lightClient) dump() string {
 }
 
 func (f *LightFamily) Root() (*Node, string) {
-	return &Node{Model: &lightModel{undoBud: f.UndoBud}}, "root"
+	return &Node{Model: &lightModel{s: ref.State{Base: f.Base}, undoBud: f.UndoBud}}, "root"
 }
 
 func (f *LightFamily) Ops(n *Node) []Op {
@@ -79,6 +82,9 @@ func (f *LightFamily) Ops(n *Node) []Op {
 		for adds := 0; md.s.N()+adds <= f.Nmax; adds++ {
 			if adds == 0 && len(dels) == 0 {
 				continue
+			}
+			if md.s.Total()+uint64(adds) > uint64(1)<<63 {
+				break // forests of more than 63 rows are outside every property's scope
 			}
 			idx := make([]int, adds)
 			for i := range idx {
@@ -115,7 +121,11 @@ type lightPayload struct {
 // their state was first reached. ok=false when a substrate call failed.
 func (f *LightFamily) run(x *Exec, hist []Op) (*lightClient, *lightModel, bool, int64) {
 	c := &lightClient{pol: u.NewAccumulator()}
-	md := &lightModel{undoBud: f.UndoBud}
+	md := &lightModel{s: ref.State{Base: f.Base}, undoBud: f.UndoBud}
+	if f.Base > 0 {
+		c.stump = u.Stump{Roots: append([]Hash(nil), ref.APILayout(md.s).Roots...), NumLeaves: f.Base}
+	}
+	withProver := f.Base == 0
 	var evals int64
 	for i, op := range hist {
 		last := i == len(hist)-1
@@ -157,9 +167,11 @@ func (f *LightFamily) run(x *Exec, hist []Op) (*lightClient, *lightModel, bool, 
 				return c, md, false, evals
 			}
 			c.hashes = nh
-			if err := x.Modify("Pollard", &c.pol, leavesFor(md.s.N(), op.Adds, nil), dh, proof); err != nil {
-				x.Note("blocked: Pollard.Modify failed in the light family")
-				return c, md, false, evals
+			if withProver {
+				if err := x.Modify("Pollard", &c.pol, leavesFor(md.s.N(), op.Adds, nil), dh, proof); err != nil {
+					x.Note("blocked: Pollard.Modify failed in the light family")
+					return c, md, false, evals
+				}
 			}
 			md.stack = append(md.stack, fr)
 			nc := append([]bool(nil), md.cached...)
@@ -186,9 +198,11 @@ func (f *LightFamily) run(x *Exec, hist []Op) (*lightClient, *lightModel, bool, 
 			c.hashes = nh
 			c.stump = fr.prevStump
 			LP := ref.APILayout(fr.prev)
-			if err := x.Undo("Pollard", &c.pol, uint64(fr.op.Adds), LP.Proof(fr.op.Dels), ref.Hashes(fr.op.Dels), append([]Hash(nil), LP.Roots...)); err != nil {
-				x.Note("blocked: Pollard.Undo failed in the light family")
-				return c, md, false, evals
+			if withProver {
+				if err := x.Undo("Pollard", &c.pol, uint64(fr.op.Adds), LP.Proof(fr.op.Dels), ref.Hashes(fr.op.Dels), append([]Hash(nil), LP.Roots...)); err != nil {
+					x.Note("blocked: Pollard.Undo failed in the light family")
+					return c, md, false, evals
+				}
 			}
 			// expected: what is held now among the leaves that existed before the block
 			nc := append([]bool(nil), md.cached[:fr.prev.N()]...)
@@ -231,6 +245,9 @@ func (f *LightFamily) Step(n *Node, op Op) StepResult {
 	}
 	x := NewExec(xp, func() Case { return mkCase("light", lightPayload{Fam: *f, Hist: hist}) })
 	x.CaseID = histStr(hist)
+	if f.Base > 0 {
+		x.CaseID = fmt.Sprintf("base=%d %s", f.Base, x.CaseID)
+	}
 	c, md, ok, evals := f.run(x, hist)
 	res := StepResult{Evals: evals}
 	if ok {
@@ -363,6 +380,9 @@ func checkCachedProof(x *Exec, prop string, c *lightClient, md *lightModel, afte
 		if _, err := x.Verify(c.stump, c.hashes, c.proof); err != nil {
 			x.Report(prop, "cached proof does not verify against the verifier state "+when, err.Error())
 		}
+		if md.s.Base > 0 {
+			return 1 // no full prover can exist at this size
+		}
 		pp, err := x.Prove("Pollard", &c.pol, c.hashes)
 		if err != nil {
 			x.Note("light: full prover cannot prove the held set")
@@ -465,7 +485,7 @@ func init() {
 		}
 		f := p.Fam
 		// replay through Step so that the same model bookkeeping applies
-		n := &Node{Model: &lightModel{undoBud: f.UndoBud}}
+		n := &Node{Model: &lightModel{s: ref.State{Base: f.Base}, undoBud: f.UndoBud}}
 		var viol []Violation
 		for i, op := range p.Hist {
 			r := f.Step(n, op)
@@ -486,12 +506,14 @@ func init() {
 		c.Cov.Rule = "explicit-state BFS over light-client histories: state (N, alive, cached); transition = block(deletion subset of the live leaves, addition count with N<=Nmax, every subset of the additions to remember), executed as Stump.Update + Proof.Update on a client holding only stump, proof and hashes, starting from the empty proof; after every transition the held (hash,position) pairs, the canonical proof hashes, acceptance by Verify and equality with a full Pollard prover's proof are compared with the reference forest; non-trivial = distinct concrete client state with a dead leaf"
 		c.Cov.Bound["Nmax"] = fam.Nmax
 		BFS(c, fam, 0)
+		lightBases(c, "C07", pick(c, 3, 4), 0)
 	}
 	Checks["C11"] = func(c *Ctx) {
 		fam := &LightFamily{Nmax: pick(c, 9, 11), Prop: "C11", RemMode: "none"}
 		c.Cov.Rule = "explicit-state BFS over stump histories (every deletion subset x every addition count, N<=Nmax); for every transition the UpdateData returned by Stump.Update is compared field by field with the reference model's derived oracles (empty roots consumed by the binary carry in order of destruction and post-block coordinates; every pre-block path position of the deleted targets with its post-deletion subtree hash; every added leaf and both children of every node created by the additions); non-trivial = distinct stump state with a dead leaf"
 		c.Cov.Bound["Nmax"] = fam.Nmax
 		BFS(c, fam, 0)
+		lightBases(c, "C11", pick(c, 4, 5), 0)
 	}
 	Checks["C08"] = func(c *Ctx) {
 		fam := &LightFamily{Nmax: pick(c, 5, 6), Prop: "C08", UndoBud: 2}
@@ -499,5 +521,34 @@ func init() {
 		c.Cov.Bound["Nmax"] = fam.Nmax
 		c.Cov.Bound["undo_budget"] = fam.UndoBud
 		BFS(c, fam, 0)
+		lightBases(c, "C08", pick(c, 3, 3), 1)
+	}
+}
+
+// lightBases runs the light-client family from bare roots of large accumulators (offset-start
+// family): Base in {2^k-1, 2^k, 2^k+1 : k in 5, 31, 32, 62} plus 2^63-1, so that update data,
+// cached proofs and their undo are exercised at rows 5..63.
+func lightBases(c *Ctx, prop string, nmax, undo int) {
+	var bases []uint64
+	for _, k := range []uint{5, 31, 32, 62} {
+		b := uint64(1) << k
+		bases = append(bases, b-1, b, b+1)
+	}
+	bases = append(bases, uint64(1)<<63-1, uint64(1)<<63-4)
+	if !c.Thorough() {
+		bases = []uint64{31, 32, 1<<31 - 1, 1 << 32, 1<<62 + 1, 1<<63 - 4}
+	}
+	c.Cov.Bound["offset_start.bases"] = fmt.Sprint(bases)
+	c.Cov.Bound["offset_start.Nmax"] = nmax
+	for _, b := range bases {
+		if c.Expired() {
+			c.Cov.NotExhaustive("deadline reached in the offset-start family")
+			return
+		}
+		rm := ""
+		if prop == "C11" {
+			rm = "none"
+		}
+		BFS(c, &LightFamily{Nmax: nmax, UndoBud: undo, Prop: prop, RemMode: rm, Base: b}, 0)
 	}
 }
